@@ -278,9 +278,12 @@ Definition strip_finalizer (f : string) (o : json) : json :=
   | _ => match o with JObj m => JObj (nested_remove m ["metadata"; "finalizers"]) | _ => o end
   end.
 
-(* the object sent with the requests: the (cached) target with the merged maps and the status *)
+(* the object sent with the requests: the (cached) target with the merged maps and the status.
+   The status is written only when there is one (syncResult.Status != nil): a null status in the
+   response over a target without status leaves the key absent instead of storing an explicit null *)
 Definition decorated (parent : json) (labels annots : smap) (status : json) : json :=
-  set_status (set_annots (set_labels parent labels) annots) status.
+  let o := set_annots (set_labels parent labels) annots in
+  if is_null status then o else set_status o status.
 
 (* what the response asks of the target, relative to the object the sync holds *)
 Record target_plan := mkPlan {
